@@ -1232,3 +1232,23 @@ def rule_definition_time_expressions(check, rule):
                                 'enclosing scope' % (h.name, field), key=key)
             else:
                 check.holds(rule, site_of(h, h.node.body[visited_at]), '%s visits %s in the enclosing scope' % (h.name, field), key=key)
+
+
+def rule_builtins_access(check, rule):
+    """C07.R7b: `<globals>['__builtins__']` is the builtins *module* in `__main__` and a dict everywhere else (CPython
+    implementation detail).  Subscripting it raises TypeError for every function defined in a script -- out of
+    retrieval, since resolve_name only converts KeyError/AttributeError/ValueError.  Zero-expected."""
+    repo = check.repo
+    n = 0
+    for fi in repo.all_funcs():
+        if fi.module.name not in (AF, '_util', '_specifiers', 'specifiers'):
+            continue
+        for x in ast.walk(fi.node):
+            if isinstance(x, ast.Subscript) and isinstance(x.value, ast.Subscript) and isinstance(x.value.slice, ast.Constant) \
+                    and x.value.slice.value == '__builtins__':
+                n += 1
+                check.violation(rule, site_of(fi, x), '%s subscripts __builtins__, which is a module (not a dict) for functions defined in __main__: '
+                                'TypeError: \'module\' object is not subscriptable leaves retrieval' % norm(x)[:60], key='%s|builtins-subscript' % fi.key,
+                                witness='a script-level def f(*a, **k): return print(*a, **k); sigtools.signature(f)')
+    if not n:
+        check.holds(rule, 'sigtools/_autoforwards.py:0 _autoforwards', 'nothing subscripts __builtins__', key='builtins-subscript|none', nontrivial=False)
